@@ -19,6 +19,7 @@ NOT_DECIDED = [
     "sizes of in-memory buffers are at most isize::MAX (used by the length-arithmetic rule)",
 ]
 CONFIG_SENSITIVE = True
+DESUGAR = True
 INLINE_HELPERS = True  # terms (and therefore operand fingerprints) are those of the inlined helper; the inventory itself is per body and static, so a helper's sites are listed once, in the helper
 
 HERE = os.path.dirname(os.path.abspath(__file__))
@@ -248,7 +249,7 @@ def discharge(ctx, body, p, ev, kind):
                 if is_call(hs, "cmp::min", "Ord::min") and any(is_call(strip_refs(a), "::len") and strip_refs(call_args(strip_refs(a))[0]) == c0 for a in call_args(hs)[:2]):
                     return "G4-index-from-range-to-min-len"
             return None
-        if last == "index" and ("[T]" in nm or "Vec" in nm) and agg_variant(ev.args[1]) and agg_variant(ev.args[1])[1] == "RangeTo":
+        if last in ("index", "drain") and ("[T]" in nm or "Vec" in nm) and agg_variant(ev.args[1]) and agg_variant(ev.args[1])[1] == "RangeTo":
             coll = strip_refs(ev.args[0])
             hi = agg_variant(ev.args[1])[2][0]
             if isinstance(hi, tuple) and hi[0] == "binop" and hi[1] == "Add" and const_int(hi[3]) is not None:
